@@ -147,7 +147,9 @@ def main(argv):
                      "log": out[-3000:], "note": "the tables the theorems quantify over could not be regenerated"}, no_input=True, tag="translator")
     else:
         c.log(out.strip().split("\n")[0])
-    tabs = json.load(open(tables_json)) if os.path.exists(tables_json) else None
+    # after a translator failure a tables file of an earlier run is only good for telling the harness which names to call
+    stale = json.load(open(tables_json)) if os.path.exists(tables_json) else None
+    tabs = stale if translator_ok else None
 
     # ---- 2. proofs -------------------------------------------------------------------------------
     c.proofs()
@@ -167,7 +169,7 @@ def main(argv):
     # impure entries of the generated tables that are not known leaks
     new_impure = []
     if tabs:
-        eff = tabs["effects"]
+        eff = tabs.get("effects_sandboxed") or tabs["effects"]
         paths = tabs.get("paths", {})
         for cfg in SANDBOX_CFGS:
             for b in tabs["configs"][cfg]["bindings"]:
@@ -189,7 +191,8 @@ def main(argv):
                 new_impure.append({"cfg": "all", "table": "vm", "name": f, "go_function": f, "effects": eff.get(f), "call_path": paths.get(f)})
         c.coverage["generated"] = {"functions_analysed": tabs["functions_analysed"], "special_forms": len(tabs["special_forms"]),
                                    "bindings": {k: len(v["bindings"]) for k, v in tabs["configs"].items()},
-                                   "unresolved_dynamic_calls": tabs["unresolved_dynamic_calls"]}
+                                   "unresolved_dynamic_calls": tabs["unresolved_dynamic_calls"],
+                                   "sandbox_flag": tabs.get("sandbox_flag", ""), "guarded_functions": tabs.get("guarded_functions") or []}
 
     # refutation witnesses of the full statements: only while the findings are listed
     if listed and not c.proof_break:
@@ -208,7 +211,7 @@ def main(argv):
         c.violation({"kind": "cmd/zygo no longer builds", "log": out[-2000:]}, no_input=True, tag="build")
         zygo_bin = ""
     extra = ["--bindings", bindings_json]
-    if tabs:
+    if stale:
         extra += ["--tables", tables_json]
     if zygo_bin:
         extra += ["--zygo", zygo_bin]
